@@ -1,10 +1,52 @@
 import Driver.Util
-open Lean Driver
+import Driver.Img
+import Driver.C04
+import GinjaxVerif.Model.Conv
+open Lean Driver GinjaxVerif
 
 namespace Driver.C01
 
-def handle (op : String) (_j : Json) : R Json := do
+/-- materialise a bank on its box so that nested evaluation stays cheap -/
+def tabBank {d : Nat} (B C : Nat) (dims : List Nat) (k : Nat) (bank : Bank Int d) : Bank Int d :=
+  let tens := List.replicate k d
+  let shape := [B, C] ++ dims ++ tens
+  let arr := ((List.range B).flatMap (fun b => (List.range C).flatMap (fun c =>
+    (boxIdx dims).flatMap (fun y => (boxIdx tens).map (fun n =>
+      bank b c (listToFn d 0 (y.map Int.ofNat))
+        (n.filterMap (fun a => if h : a < d then some (⟨a, h⟩ : Fin d) else none))))))).toArray
+  fun b c y n =>
+    if (fnToList y).zip dims |>.all (fun (v, s) => decide (0 ≤ v ∧ v < (s : Int))) then
+      arr.getD (ravelIdx shape ([b, c] ++ (fnToList y).map Int.toNat ++ n.map (·.val))) 0
+    else 0
+
+def tgeBankD {d : Nat} (M : Mat d) (p : Nat) (dims : Fin d → Nat) (k : Nat) (B : Bank Int d) : Bank Int d :=
+  fun b ch y t => (tge M p ⟨dims, k, B b ch⟩).val y t
+
+def handle (op : String) (j : Json) : R Json := do
+  let d ← natF j "d"
+  let M ← field j "M" >>= parseMat d
+  if !isSignedPerm M then throw "not a signed permutation matrix"
+  let img ← field j "image" >>= Driver.C04.parseBank d
+  let flt ← field j "filter" >>= Driver.C04.parseBank d
+  let cfg ← Driver.C04.getCfg d j img flt
+  let pI ← natF j "p_image"
+  let pF ← natF j "p_filter"
   match op with
+  | "c01.lhs" =>
+    -- convolve(g.A, g.C, g.opts): the model of the transformed call
+    let cfg' : ConvCfg d := { cfg with ax := transport M cfg.ax }
+    let N := listToFn d 0 img.spatial
+    let Mf := listToFn d 0 flt.spatial
+    let gi := tabBank img.lead0 img.lead1 (fnToList (rotDims M N)) img.k (tgeBankD M pI N img.k img.bank)
+    let gf := tabBank flt.lead0 flt.lead1 (fnToList (rotDims M Mf)) flt.k (tgeBankD M pF Mf flt.k flt.bank)
+    pure (Driver.C04.bankToJson img.lead0 flt.lead0 (fnToList cfg'.outDims) (cfg.kI + cfg.kF)
+      (convSpec cfg' gi gf))
+  | "c01.rhs" =>
+    -- g.(convolve(A, C, opts))
+    let dims := fnToList cfg.outDims
+    let out := tabBank img.lead0 flt.lead0 dims (cfg.kI + cfg.kF) (convSpec cfg img.bank flt.bank)
+    pure (Driver.C04.bankToJson img.lead0 flt.lead0 (fnToList (rotDims M cfg.outDims)) (cfg.kI + cfg.kF)
+      (tgeBankD M (pI + pF) cfg.outDims (cfg.kI + cfg.kF) out))
   | _ => throw s!"unknown op {op}"
 
 end Driver.C01
